@@ -142,7 +142,10 @@ Snap == [sclosed |-> sclosed, closing |-> closing, tab |-> tab, stClosed |-> stC
          rpclosed |-> rpclosed, acceptClosed |-> acceptClosed, broken |-> broken, poolCount |-> poolCount,
          endClosed |-> endClosed, timers |-> timers, cause |-> cause]
 
-Apply(S) ==
+\* (TLCEval: in simulation mode TLC keeps function constructors lazy; a lazy value that mentions state variables is
+\* re-evaluated in the wrong state under ENABLED, so everything assigned to a variable is forced here)
+Apply(S0) ==
+  LET S == TLCEval(S0) IN
   /\ sclosed' = S.sclosed /\ closing' = S.closing /\ tab' = S.tab /\ stClosed' = S.stClosed
   /\ count' = S.count /\ rpclosed' = S.rpclosed /\ acceptClosed' = S.acceptClosed /\ broken' = S.broken
   /\ poolCount' = S.poolCount /\ endClosed' = S.endClosed /\ timers' = S.timers /\ cause' = S.cause
@@ -154,9 +157,9 @@ MarkOn(S, e, why) == [S EXCEPT !.sclosed[e] = TRUE, !.cause[e] = why]
 StreamsOn(S, e) ==
   LET live == {s \in Streams : S.tab[e][s] = "open" /\ ~S.stClosed[e][s]} IN
        [S EXCEPT !.acceptClosed[e] = TRUE,
-                 !.stClosed[e] = [s \in Streams |-> IF s \in live THEN TRUE ELSE @[s]],
-                 !.rpclosed[e] = [s \in Streams |-> IF s \in live THEN TRUE ELSE @[s]],
-                 !.tab[e] = [s \in Streams |-> IF s \in live THEN "absent" ELSE @[s]],
+                 !.stClosed[e] = TLCEval([s \in Streams |-> IF s \in live THEN TRUE ELSE @[s]]),
+                 !.rpclosed[e] = TLCEval([s \in Streams |-> IF s \in live THEN TRUE ELSE @[s]]),
+                 !.tab[e] = TLCEval([s \in Streams |-> IF s \in live THEN "absent" ELSE @[s]]),
                  !.count[e] = @ - Cardinality(live)]
 
 \* closeSession: CAS closed, then closeStreams
@@ -166,9 +169,9 @@ SweepOn(S, e, why) ==
        [S EXCEPT !.sclosed[e] = TRUE,
                  !.cause[e] = why,
                  !.acceptClosed[e] = TRUE,
-                 !.stClosed[e] = [s \in Streams |-> IF s \in live THEN TRUE ELSE @[s]],
-                 !.rpclosed[e] = [s \in Streams |-> IF s \in live THEN TRUE ELSE @[s]],
-                 !.tab[e] = [s \in Streams |-> IF s \in live THEN "absent" ELSE @[s]],
+                 !.stClosed[e] = TLCEval([s \in Streams |-> IF s \in live THEN TRUE ELSE @[s]]),
+                 !.rpclosed[e] = TLCEval([s \in Streams |-> IF s \in live THEN TRUE ELSE @[s]]),
+                 !.tab[e] = TLCEval([s \in Streams |-> IF s \in live THEN "absent" ELSE @[s]]),
                  !.count[e] = @ - Cardinality(live)]
 
 \* closeAll: mark the switchboard broken, close every pooled connection
@@ -176,7 +179,7 @@ CloseAllOn(S, e) ==
   IF S.broken[e] THEN S
   ELSE [S EXCEPT !.broken[e] = TRUE,
                  !.poolCount[e] = 0,
-                 !.endClosed = [c \in Conns |-> IF c \in pool[e] THEN [@[c] EXCEPT ![e] = TRUE] ELSE @[c]]]
+                 !.endClosed = TLCEval([c \in Conns |-> IF c \in pool[e] THEN [@[c] EXCEPT ![e] = TRUE] ELSE @[c]])]
 
 \* passiveClose: closeSession and, only if that was the first close, closeAll
 PassiveOn(S, e, why) == IF S.sclosed[e] THEN S ELSE CloseAllOn(SweepOn(S, e, why), e)
@@ -453,7 +456,7 @@ SessCloseB(e, c) ==
 ConnFail(c) ==
   /\ "fault" \in Feat /\ connUp[c]
   /\ connUp' = [connUp EXCEPT ![c] = FALSE]
-  /\ net' = [net EXCEPT ![c] = [e \in E |-> <<>>]]
+  /\ net' = [net EXCEPT ![c] = TLCEval([e \in E |-> <<>>])]
   /\ lastEv' = [a |-> "ConnFail", c |-> c]
   /\ UNCHANGED <<deplexOn, dpend, pool, SessV, AccV, WrV, RdV, AppV, nextId, timerDecided, openpc, addpc>>
 
